@@ -26,12 +26,34 @@ func isFileCloseOn(c ssa.CallInstruction, typeName, field string) bool {
 func rulesC13(w *World, r *Report) {
 	open := need(w, r, "C13.R1", w.Lib, "Open")
 	create := need(w, r, "C13.R1", w.Lib, "Create")
-	oal := need(w, r, "C13.R2", w.Lib, "Whisper.openAndLockFile")
+	var oal *ssa.Function
+	for _, f := range libFuncs(w) {
+		for _, c := range callsIn(f) {
+			if isCallToPkgFunc(c, "syscall", "Flock") {
+				if oal != nil && oal != f {
+					r.Violate("C13.R5", "flock-sites", w.instrPos(c), "syscall.Flock is called from more than one function")
+				}
+				oal = f
+			}
+		}
+	}
+	if oal == nil {
+		r.Violate("C13.R2", "anchor:flock", "-", "no function of package whispertool calls syscall.Flock: files are not locked at all")
+	}
 	closeF := need(w, r, "C13.R5", w.Lib, "Whisper.Close")
 	if open == nil || create == nil || oal == nil || closeF == nil {
 		return
 	}
 
+	// the function that opens the descriptor (normally the lock function itself)
+	openFn := oal
+	for _, f := range libFuncs(w) {
+		for _, c := range callsIn(f) {
+			if isCallToPkgFunc(c, "os", "OpenFile") {
+				openFn = f
+			}
+		}
+	}
 	closesFile := newMustPerf(w, func(c ssa.CallInstruction) bool {
 		if isFileCloseOn(c, "Whisper", "file") {
 			return true
@@ -52,18 +74,18 @@ func rulesC13(w *World, r *Report) {
 	for _, ctor := range []*ssa.Function{open, create} {
 		var lockCall *ssa.Call
 		for _, c := range callsIn(ctor) {
-			if cv, ok := c.(*ssa.Call); ok && c.Common().StaticCallee() == oal {
+			if cv, ok := c.(*ssa.Call); ok && reachesLibFn(w, c.Common().StaticCallee(), openFn) {
 				lockCall = cv
 			}
 		}
 		key := funcName(ctor)
 		if lockCall == nil {
-			r.Violate("C13.R1", key+":lock-call", w.pos(ctor.Pos()), "constructor does not call openAndLockFile")
+			r.Violate("C13.R1", key+":lock-call", w.pos(ctor.Pos()), "constructor does not call the function that opens (and locks) the file")
 			continue
 		}
 		succ, _, ok := successEdge(lockCall)
 		if !ok {
-			r.Violate("C13.R1", key+":lock-call", w.instrPos(lockCall), "the error of openAndLockFile is not tested")
+			r.Violate("C13.R1", key+":lock-call", w.instrPos(lockCall), "the error of opening the file is not tested")
 			continue
 		}
 		exit := func(ret *ssa.Return) bool {
@@ -102,7 +124,7 @@ func rulesC13(w *World, r *Report) {
 			openFileCall = cv
 		}
 	}
-	if flockCall == nil || openFileCall == nil {
+	if flockCall == nil || (openFileCall == nil && openFn == oal) {
 		r.Violate("C13.R2", "openAndLockFile:calls", w.pos(oal.Pos()), fmt.Sprintf("openAndLockFile must call os.OpenFile and syscall.Flock (found OpenFile=%v Flock=%v)", openFileCall != nil, flockCall != nil))
 	} else {
 		// how == LOCK_EX exactly
@@ -112,7 +134,7 @@ func rulesC13(w *World, r *Report) {
 		// fd derives from Fd() of the OpenFile result
 		fdOK := false
 		if fdc, ok := stripConvert(flockCall.Common().Args[0]).(*ssa.Call); ok && isMethodCall(fdc, "os", "File", "Fd") {
-			if ex, ok := callRecv(fdc).(*ssa.Extract); ok && ex.Tuple == ssa.Value(openFileCall) && ex.Index == 0 {
+			if ex, ok := callRecv(fdc).(*ssa.Extract); ok && openFileCall != nil && ex.Tuple == ssa.Value(openFileCall) && ex.Index == 0 {
 				fdOK = true
 			}
 			if isLoadOfField(callRecv(fdc), "Whisper", "file") {
@@ -159,10 +181,12 @@ func rulesC13(w *World, r *Report) {
 			}
 		}
 		// OpenFile's error tested
-		if msg := checkErrorHandled(w, openFileCall); msg != "" {
-			r.Violate("C13.R2", "openfile:checked", w.instrPos(openFileCall), msg)
-		} else {
-			r.OK("C13.R2", "openfile:checked", w.instrPos(openFileCall), "error tested")
+		if openFileCall != nil {
+			if msg := checkErrorHandled(w, openFileCall); msg != "" {
+				r.Violate("C13.R2", "openfile:checked", w.instrPos(openFileCall), msg)
+			} else {
+				r.OK("C13.R2", "openfile:checked", w.instrPos(openFileCall), "error tested")
+			}
 		}
 		// nothing else happens in here (no read before the lock)
 		for _, c := range callsIn(oal) {
@@ -184,20 +208,22 @@ func rulesC13(w *World, r *Report) {
 	for _, ctor := range []*ssa.Function{open, create} {
 		var lockCall *ssa.Call
 		for _, c := range callsIn(ctor) {
-			if cv, ok := c.(*ssa.Call); ok && c.Common().StaticCallee() == oal {
+			if cv, ok := c.(*ssa.Call); ok && reachesLibFn(w, c.Common().StaticCallee(), oal) {
 				lockCall = cv
 			}
 		}
 		if lockCall == nil {
+			r.Violate("C13.R3", funcName(ctor)+":locks", w.pos(ctor.Pos()), ctor.Name()+" never calls the function that takes the lock")
 			continue
 		}
 		succ, _, ok := successEdge(lockCall)
 		if !ok {
+			r.Violate("C13.R3", funcName(ctor)+":locks", w.instrPos(lockCall), "the error of the lock call is not tested")
 			continue
 		}
 		for _, c := range callsIn(ctor) {
 			sc := c.Common().StaticCallee()
-			if sc == nil || sc == oal {
+			if sc == nil || reachesLibFn(w, sc, oal) || reachesLibFn(w, sc, openFn) || isMethodFunc(sc, "os", "File", "Close") {
 				continue
 			}
 			touches := isMethodFunc(sc, "os", "File", sc.Name()) || pkgOf(sc) == w.FB ||
@@ -267,6 +293,23 @@ func rulesC13(w *World, r *Report) {
 		}
 		for _, c := range callsIn(f) {
 			if !isMethodCall(c, "os", "File", "Close") {
+				continue
+			}
+			if f.Parent() != nil {
+				// a deferred cleanup closure: the close must sit under the non-nil edge of a nil test on a captured error
+				under := false
+				for _, b := range f.Blocks {
+					x, nonNil, _, isTest := nilTest(b)
+					if !isTest || !edgeDominates(b, nonNil, c.Block()) {
+						continue
+					}
+					if ld, ok := x.(*ssa.UnOp); ok {
+						if _, isFV := ld.X.(*ssa.FreeVar); isFV && isErrorType(x.Type()) {
+							under = true
+						}
+					}
+				}
+				r.Check(under, "C13.R5", "close:"+funcName(f), w.instrPos(c), "cleanup closure closes only when the captured error is non-nil", "a closure closes the handle's descriptor unconditionally: a handle could be handed out with its descriptor closed")
 				continue
 			}
 			in, isCall := c.(*ssa.Call)
@@ -400,10 +443,18 @@ func httpHandlers(w *World) []*ssa.Function {
 				fromValue(b)
 			}
 		case *ssa.Call:
-			// adapter(h): take the function-typed arguments
+			// adapter(h): take the function-typed arguments, and the closures the adapter itself returns
 			for _, a := range x.Common().Args {
 				if _, ok := a.Type().Underlying().(*types.Signature); ok {
 					fromValue(a)
+				}
+			}
+			if sc := x.Common().StaticCallee(); sc != nil && w.inModule(sc) {
+				for _, af := range sc.AnonFuncs {
+					if !seen[af] {
+						seen[af] = true
+						out = append(out, af)
+					}
 				}
 			}
 		case *ssa.ChangeType:
@@ -418,4 +469,18 @@ func httpHandlers(w *World) []*ssa.Function {
 		}
 	}
 	return out
+}
+
+// reachesLibFn: f is target or calls it through package whispertool functions.
+func reachesLibFn(w *World, f, target *ssa.Function) bool {
+	if f == nil || target == nil {
+		return false
+	}
+	if f == target {
+		return true
+	}
+	if pkgOf(f) != w.Lib {
+		return false
+	}
+	return w.findPath(f, func(g *ssa.Function) bool { return g == target }, func(g *ssa.Function) bool { return pkgOf(g) == w.Lib }) != nil
 }
